@@ -109,3 +109,27 @@ class Memo:
         if key not in Memo.CACHE:
             Memo.CACHE[key] = key * 2   # exempt: the key determines the value
         return Memo.CACHE[key]
+
+    @classmethod
+    def good_derived(cls, word: bytes, width: int) -> int:
+        digest = bytes(word)
+        key = (digest, width)
+        if key not in Memo.CACHE:
+            total = 0
+            for octet in digest:
+                total = (total * 3 + octet) % (1 << width)
+            Memo.CACHE[key] = total   # exempt: everything the value is computed from is preserved by the key
+        return Memo.CACHE[key]
+
+    @classmethod
+    def bad_partial_key(cls, word: bytes, width: int) -> int:
+        if width not in Memo.CACHE:
+            Memo.CACHE[width] = sum(word) % (1 << width)   # NOT exempt: the value depends on `word`, the key does not
+        return Memo.CACHE[width]
+
+    @classmethod
+    def bad_lossy_key(cls, word: bytes) -> int:
+        key = len(word)
+        if key not in Memo.CACHE:
+            Memo.CACHE[key] = sum(word)   # NOT exempt: len(word) does not preserve `word`
+        return Memo.CACHE[key]
